@@ -40,6 +40,19 @@ Theorem C39_served_when_in_mempool_at_the_last_announcement : forall s p tx x e 
 Proof. exact served_if_announced. Qed.
 Print Assumptions C39_served_when_in_mempool_at_the_last_announcement.
 
+(* A transaction enters the mempool only by the admission event (reception from the network or a submission without private broadcast):
+   BroadcastTransaction(NO_MEMPOOL_PRIVATE_BROADCAST) (event EPrivate) leaves the mempool alone ... *)
+Theorem C39_only_admission_puts_a_transaction_into_the_mempool : forall s ev tx e,
+  find_entry tx (r_pool (rstep s ev)) = Some e -> find_entry tx (r_pool s) = None -> exists b, ev = EAdd tx b.
+Proof. exact pool_grows_only_by_admission. Qed.
+Print Assumptions C39_only_admission_puts_a_transaction_into_the_mempool.
+
+(* ... so a privately submitted transaction is not handed out on ordinary connections. *)
+Theorem C39_private_submission_is_not_served_to_ordinary_peers : forall s p tx,
+  find_entry tx (r_pool s) = None -> mem tx (r_recent s) = false -> serve_getdata (rstep s (EPrivate tx)) p tx = false.
+Proof. exact private_submission_not_served. Qed.
+Print Assumptions C39_private_submission_is_not_served_to_ordinary_peers.
+
 (* Private-broadcast queue, for every sequence of Add / Remove / PickTxForSend / NodeConfirmedReception and any limits: never more than
    max_transactions entries, never more than max_send_attempts send statuses for a transaction (they are cleared when an exhausted
    transaction is re-added), every node id recorded at most once (one transaction per connection). *)
